@@ -56,10 +56,28 @@ RULE = ("cells = (pair family x parametrisation x dimension/geometry x interface
         "location takes the hyper-parameter's value) are accepted for target-density; when the target follows the second "
         "one its own density has the hyper-parameter in location and dispersion, so acceptance by the approximate pair is "
         "the violation (exact pairs: judged by the captured request as always).  "
+        "A producer cell = (interface x documented pair and parameter {Gaussian cov, Gaussian prec, GMRF prec; stateful "
+        "interface also RegularizedGaussian cov, LMRF scale} x HOW the callable carrying the dependence was produced {lambda "
+        "written out, def function written out, functools.partial of one general function, lambda returned by one closure "
+        "factory (siblings share the code object, differ in closure values), bound method of an instance of one small class, "
+        "instance of one small class with __call__}); members = the three-parameter family c/s**p+e (cov, scale) resp. "
+        "c*s**p+e (prec): the supported member (1,1,0) and three unsupported siblings of the refusal alphabet; inside the cell "
+        "dimension x prior x acceptance route (5 routes, stateless interface: constructor+step) x process history {fresh: a "
+        "family whose function, code and class objects have never been shown to the library in this process; the unsupported "
+        "member offered AFTER its supported sibling (same general function / factory / class) was accepted and drawn for by "
+        "another sampler; the supported member offered AFTER each unsupported sibling was offered (refused)} - every history "
+        "inside the one cell, every family at its own source location, so the verdict does not depend on which cells share a "
+        "worker process.  Oracles: the statement's, in every history (supported member accepted by an exact pair: captured "
+        "Gamma exact for the target's own density; unsupported member: refused, or exact, or - approximate pairs - merely "
+        "accepting it is the violation), and the differential one: refused / listed / accepted-with-these-Gamma-parameters of "
+        "a member through a route is the same in every history.  "
+        "GMRF supported cells whose node count exists on both grid layouts (2-D N x N <-> 1-D with N*N nodes): a GMRF of the "
+        "same dimension, order and bc on the OTHER layout is built before the members of the cell, and the other layout is "
+        "itself a judged member (3 priors) after them - both orders inside the one cell.  "
         "A supported cell is non-trivial when the sampler accepted the target "
         "and issued a Gamma request; a refusal / near-miss cell when the same route accepts the supported control posterior "
         "(for a near-miss cell: the d = 0 twin of the same pair and parameter); a name cell when target.logd or a captured "
-        "request was judged")
+        "request was judged; a producer cell when the supported member was accepted in the fresh history")
 BOUND = {
     "quick": "Gaussian dims 1..4 x {cov=1/s, cov=1.0/s, prec=s, prec=s*ones, scalar mean with cov / prec}; GMRF 1-D "
              "N=2..5 + 2-D 2x2,3x3 x bc {zero,neumann,periodic} x order 0..2; 9 Gamma(shape,rate) x 7 mean/data kinds "
@@ -72,10 +90,14 @@ BOUND = {
              "perturbation forms x sign +- x |d| in 2^-{10,20,26,40} x data scale {1, 2^10} x 2 priors x 5 routes, n = 3; "
              "re-targeting: all 24 ordered triples of 4 posteriors on one object; 12 Direct target families; name facet: "
              "6 (family, entering parameter) x 7..10 names (101 cells over both interfaces) x dims {1,2,3} (GMRF/LMRF {2,3}, "
-             "GMRF zero bc, order 1,2) x 4 assemblies (LMRF 3) x 2 priors x 2 residual kinds",
+             "GMRF zero bc, order 1,2) x 4 assemblies (LMRF 3) x 2 priors x 2 residual kinds; producer facet: (3 pairs x 2 "
+             "interfaces + 2 approximate pairs on the stateful interface) x 6 producers = 48 cells, each n = 3 x prior "
+             "Gamma(3,2) x routes x {4 members fresh, 3 unsupported members after the accepted supported sibling, the "
+             "supported member after each of 3 unsupported siblings}; other-layout GMRF: all 2-D cells (1-D N*N) and 1-D N = 4",
     "thorough": "Gaussian dims 1..10; GMRF 1-D N=2..10 + 2-D 2x2..5x5; 9 Gamma(shape,rate) x 9 mean/data kinds "
                 "(3 generic vectors, zero residual, 5 zero/integer kinds); near-miss |d| in "
-                "2^-{6,10,14,17,20,23,26,40}; name facet: dims 1..5, all 9 Gamma(shape,rate); otherwise as quick",
+                "2^-{6,10,14,17,20,23,26,40}; name facet: dims 1..5, all 9 Gamma(shape,rate); producer facet: n in {2,3} x 2 "
+                "priors; other-layout GMRF: 2-D 2x2..5x5 (1-D 4..25) and 1-D N = 4, 9; otherwise as quick",
 }
 ASSUMPTIONS = [
     "trusted base: numpy.random.gamma(shape, scale) draws from the Gamma law with exactly these parameters; "
@@ -124,6 +146,16 @@ ASSUMPTIONS = [
     "recorded probe-only signature 'agrees-at-probe-points' and under no other",
     "near-miss family: perturbations that the sampler's own construction absorbs (a constant gain: prec = (1+d)s is "
     "sampled exactly because the unit-hyper-parameter factor carries the gain) are legitimately 'accepted and exact'",
+    "producer facet: 'never shown to the library in this process' holds for the first evaluation of a cell in a process; "
+    "a repeated evaluation of the same cell (replay) repeats the same sequence of offers with equal code objects.  Every "
+    "callable has the single non-default argument s; callables with extra defaulted arguments, functools.partial of a "
+    "lambda, staticmethods / classmethods, C-implemented callables (operator.truediv partials), callables re-created "
+    "between validation and draw, and histories longer than one sibling are not covered; the supported sibling is accepted "
+    "through constructor+step (the other routes are enumerated for the member offered afterwards only)",
+    "producer facet, stateless interface: it validates nothing, so every unsupported sibling is accepted (recorded per "
+    "dependence, same signatures as in the refusal cells) and 'after a refused sibling' is 'after an offered sibling'",
+    "other-layout GMRF: only node counts that exist on both layouts inside the dimension bound (1-D N = 4, 9 ...; every "
+    "2-D N x N); rectangular images and a third object (other order / bc, same dimension) are not covered",
     "near-miss family on the stateless interface is not enumerated: that interface has no structural validation at "
     "all (recorded per functional form); one GMRF geometry (zero bc, order 1, N = 3) and one dimension (n = 3) only; "
     "perturbation catalogue = 4 one-parameter forms, not all functions within d of the supported one",
